@@ -19,7 +19,7 @@ def lanes(quick_scale=1.0, thorough_scale=30.0, miri=None, asan=False, memcheck=
     t = [dict(lane="checked", shards=16, scale=thorough_scale),
          dict(lane="release", shards=16, scale=thorough_scale)]
     if miri:
-        mq = dict(lane="miri", shards=2, watchdog=3600, max_seconds=60)
+        mq = dict(lane="miri", shards=3, watchdog=3600, max_seconds=60)
         mq.update(miri)
         if miri_quick:
             q.append(mq)
